@@ -334,6 +334,219 @@ theorem trace_same_answer_total {d : Design} (hwf : WF d) (hnn : WFNet d) (hs : 
     (trace_all_total hwf hnn hs x rec (by rcases hx with h | h; exact Or.inl h; exact Or.inr (Or.inl h)))
     (trace_all_total hwf hnn hs y rec (by rcases hy with h | h; exact Or.inl h; exact Or.inr (Or.inl h))) w
 
+/-! ### every selection from every kind of start -/
+
+/-- `get_hcables(x, sel)` is the image of `get_hwires(x, sel)` under "cable of", for every selection -/
+theorem hcables_image {d : Design} (hwf : WF d) (x : HRef) (rec : Bool) (sel : Sel)
+    (hx : IsHWire d x ∨ IsHPin d x ∨ IsHCable d x ∨ IsHPort d x) (c : HRef) :
+    c ∈ (getHCables d (.href x) rec sel).1 ↔ ∃ w ∈ (getHWires d (.href x) rec sel).1, c = w.tail := by
+  have hk : ∀ i, resolve d x ≠ some (.inst i) := by
+    intro i
+    rcases hx with ⟨C, w', ho⟩ | ⟨P, q, ho⟩ | ⟨C, ho⟩ | ⟨P, ho⟩ <;> rw [resolve_complete hwf ho] <;> simp
+  have : hcablesOfHRef d rec sel x = ((hwiresOfHRef d rec sel x).1.map List.tail, (hwiresOfHRef d rec sel x).2) := by
+    unfold hcablesOfHRef
+    cases h : resolve d x with
+    | none => rfl
+    | some e =>
+      cases e with
+      | inst i => exact absurd h (hk i)
+      | _ => rfl
+  simp only [getHCables, getHWires, hrefsOfItem, List.map_cons, List.map_nil, List.flatMap_cons, List.flatMap_nil,
+    List.append_nil, this, mem_dedup, List.mem_map]
+  constructor
+  · rintro ⟨w, hw, rfl⟩; exact ⟨w, hw, rfl⟩
+  · rintro ⟨w, hw, rfl⟩; exact ⟨w, hw, rfl⟩
+
+/-- BOTH on a hierarchical pin: the wires attached to it (inside and outside) -/
+theorem both_of_pin_spec {d : Design} (hwf : WF d) (hnn : WFNet d) (x : HRef) (rec : Bool) (hx : IsHPin d x) (w : HRef) :
+    w ∈ (getHWires d (.href x) rec .both).1 ↔ Adj d x w := by
+  obtain ⟨P, q, ho⟩ := hx
+  have hb : hwiresOfHRef d rec .both x = ((innerWire d x).toList ++ (outerWire d x).toList, true) := by
+    unfold hwiresOfHRef
+    rw [resolve_complete hwf ho]
+    simp [wiresOfPinSel]
+  rw [getHWires_href, hb, mem_dedup, List.mem_append, Option.mem_toList, Option.mem_toList, adj_iff_pin hwf hnn ho]
+
+/-- the tag of `pinsOfWireT`: which side of the pin the wire is on -/
+theorem pinsOfWireT_side {d : Design} (hwf : WF d) (hnn : WFNet d) {m : HRef} {C : Cable} {w : Wire}
+    (hm : Occ d m (.wire C w)) (b : Bool) (n : HRef) (hmem : (b, n) ∈ pinsOfWireT d m) :
+    (b = true → outerWire d n = some m) ∧ (b = false → innerWire d n = some m) := by
+  obtain ⟨y, rfl, hy, hw⟩ := hm.wire_inv
+  obtain ⟨p, i, r, D, rfl, hp, hr, hD, hC⟩ := hy.cable_inv
+  simp only [pinsOfWireT, resolve_complete hwf hm, List.tail_cons, resolve_complete hwf hp,
+    defOf_eq_some.mpr ⟨r, hr, hD⟩, List.mem_filterMap] at hmem
+  obtain ⟨pr, hpr, he⟩ := hmem
+  cases pr with
+  | inner q =>
+    simp only [hpinOfRef] at he
+    split at he
+    · rename_i P hP
+      cases he
+      refine ⟨fun h => (by cases h), fun _ => ?_⟩
+      exact innerWire_of_adj_inside hwf hnn hp hr hD hC hw hpr
+    · cases he
+  | outer c q =>
+    simp only [hpinOfRef] at he
+    split at he
+    · split at he
+      · split at he
+        · rename_i P hP
+          cases he
+          refine ⟨fun _ => ?_, fun h => (by cases h)⟩
+          exact outerWire_of_adj_outside hwf hnn hp hr hD hC hw hpr
+        · cases he
+      · cases he
+    · cases he
+
+theorem inner_ne_outer {d : Design} (hwf : WF d) (hnn : WFNet d) {n a b : HRef} {P : Port} {q : Nat}
+    (hn : Occ d n (.pin P q)) (ha : innerWire d n = some a) (hb : outerWire d n = some b) : a ≠ b := by
+  intro he
+  subst he
+  obtain ⟨_, h1⟩ := (innerWire_iff hwf hnn hn a).mp ha
+  obtain ⟨_, h2, h3⟩ := (outerWire_iff hwf hnn hn a).mp hb
+  rw [h1] at h2
+  cases hl : n.tail.tail with
+  | nil => exact h3 hl
+  | cons x t =>
+    rw [hl] at h2
+    have := congrArg List.length h2
+    simp at this
+
+/-- **OUTSIDE on a hierarchical wire**: the wires on the far side of its pins — across a port pin the
+    wire in the parent, across a sub-instance pin the wire inside the sub-instance. -/
+theorem outside_of_wire_spec {d : Design} (hwf : WF d) (hnn : WFNet d) (x : HRef) (rec : Bool) (hx : IsHWire d x) (w' : HRef) :
+    w' ∈ (getHWires d (.href x) rec .outside).1 ↔ ∃ n, Adj d n x ∧ Adj d n w' ∧ w' ≠ x := by
+  obtain ⟨C, w, ho⟩ := hx
+  have hb : hwiresOfHRef d rec .outside x = (acrossWire d x, true) := by
+    unfold hwiresOfHRef
+    rw [resolve_complete hwf ho]
+  rw [getHWires_href, hb, mem_dedup]
+  unfold acrossWire
+  rw [List.mem_flatMap]
+  constructor
+  · rintro ⟨⟨b, n⟩, hmem, hw'⟩
+    have hn : n ∈ pinsOfWire d x := List.mem_map.mpr ⟨(b, n), hmem, rfl⟩
+    have hadj : Adj d n x := (adj_iff_wire hwf ho n).mpr hn
+    obtain ⟨P, q, hnp⟩ := hadj.kinds.1
+    obtain ⟨s1, s2⟩ := pinsOfWireT_side hwf hnn ho b n hmem
+    cases b with
+    | true =>
+      simp only [if_true, Option.mem_toList] at hw'
+      exact ⟨n, hadj, (adj_iff_pin hwf hnn hnp w').mpr (Or.inl hw'), inner_ne_outer hwf hnn hnp hw' (s1 rfl)⟩
+    | false =>
+      simp only [Bool.false_eq_true, if_false, Option.mem_toList] at hw'
+      exact ⟨n, hadj, (adj_iff_pin hwf hnn hnp w').mpr (Or.inr hw'), (inner_ne_outer hwf hnn hnp (s2 rfl) hw').symm⟩
+  · rintro ⟨n, h1, h2, hne⟩
+    have hn : n ∈ pinsOfWire d x := (adj_iff_wire hwf ho n).mp h1
+    obtain ⟨⟨b, n'⟩, hmem, hnn'⟩ := List.mem_map.mp hn
+    simp only at hnn'
+    subst hnn'
+    obtain ⟨P, q, hnp⟩ := h1.kinds.1
+    obtain ⟨s1, s2⟩ := pinsOfWireT_side hwf hnn ho b n' hmem
+    refine ⟨(b, n'), hmem, ?_⟩
+    rcases (adj_iff_pin hwf hnn hnp w').mp h2 with hi | hou
+    · cases b with
+      | true => simpa using hi
+      | false =>
+        exfalso
+        have := s2 rfl
+        rw [this] at hi
+        exact hne (Option.some.inj hi).symm
+    · cases b with
+      | true =>
+        exfalso
+        have := s1 rfl
+        rw [this] at hou
+        exact hne (Option.some.inj hou).symm
+      | false => simpa using hou
+
+/-- BOTH on a hierarchical wire: itself and every wire attached to one of its pins -/
+theorem both_of_wire_spec {d : Design} (hwf : WF d) (hnn : WFNet d) (x : HRef) (rec : Bool) (hx : IsHWire d x) (w' : HRef) :
+    w' ∈ (getHWires d (.href x) rec .both).1 ↔ w' = x ∨ ∃ n, Adj d n x ∧ Adj d n w' := by
+  obtain ⟨C, w, ho⟩ := hx
+  have hb : hwiresOfHRef d rec .both x = (x :: (pinsOfWire d x).flatMap (wiresOfPinSel d .both), true) := by
+    unfold hwiresOfHRef
+    rw [resolve_complete hwf ho]
+  rw [getHWires_href, hb, mem_dedup, List.mem_cons, List.mem_flatMap]
+  constructor
+  · rintro (h | ⟨n, hn, hw'⟩)
+    · exact Or.inl h
+    · have hadj : Adj d n x := (adj_iff_wire hwf ho n).mpr hn
+      obtain ⟨P, q, hnp⟩ := hadj.kinds.1
+      simp only [wiresOfPinSel, List.mem_append, Option.mem_toList] at hw'
+      exact Or.inr ⟨n, hadj, (adj_iff_pin hwf hnn hnp w').mpr hw'⟩
+  · rintro (h | ⟨n, h1, h2⟩)
+    · exact Or.inl h
+    · obtain ⟨P, q, hnp⟩ := h1.kinds.1
+      refine Or.inr ⟨n, (adj_iff_wire hwf ho n).mp h1, ?_⟩
+      simp only [wiresOfPinSel, List.mem_append, Option.mem_toList]
+      exact (adj_iff_pin hwf hnn hnp w').mp h2
+
+/-- narrow selections on a hierarchical port: the union over its pins -/
+theorem narrow_of_port_spec {d : Design} (hwf : WF d) (x : HRef) (rec : Bool) (sel : Sel) (hsel : sel ≠ .all)
+    {P : Port} (hx : Occ d x (.port P)) (w : HRef) :
+    w ∈ (getHWires d (.href x) rec sel).1 ↔ ∃ q ∈ P.pins, w ∈ (getHWires d (.href (q :: x)) rec sel).1 := by
+  have hb : hwiresOfHRef d rec sel x = ((P.pins.map (fun q => q :: x)).flatMap (wiresOfPinSel d sel), true) := by
+    unfold hwiresOfHRef
+    rw [resolve_complete hwf hx]
+    simp [hsel]
+  have hp : ∀ q ∈ P.pins, hwiresOfHRef d rec sel (q :: x) = (wiresOfPinSel d sel (q :: x), true) := by
+    intro q hq
+    unfold hwiresOfHRef
+    rw [resolve_complete hwf (Occ.pin hx hq)]
+    simp [hsel]
+  rw [getHWires_href, hb, mem_dedup, List.mem_flatMap]
+  constructor
+  · rintro ⟨n, hn, hw⟩
+    obtain ⟨q, hq, rfl⟩ := List.mem_map.mp hn
+    exact ⟨q, hq, by rw [getHWires_href, hp q hq, mem_dedup]; exact hw⟩
+  · rintro ⟨q, hq, hw⟩
+    rw [getHWires_href, hp q hq, mem_dedup] at hw
+    exact ⟨q :: x, List.mem_map.mpr ⟨q, hq, rfl⟩, hw⟩
+
+/-- OUTSIDE / BOTH / INSIDE on a hierarchical cable: the union over its wires -/
+theorem narrow_of_cable_spec {d : Design} (hwf : WF d) (x : HRef) (rec : Bool) (sel : Sel) (hsel : sel ≠ .all)
+    {C : Cable} (hx : Occ d x (.cable C)) (w' : HRef) :
+    w' ∈ (getHWires d (.href x) rec sel).1 ↔ ∃ w ∈ C.wires, w' ∈ (getHWires d (.href (w.id :: x)) rec sel).1 := by
+  have hw : ∀ w ∈ C.wires, resolve d (w.id :: x) = some (.wire C w) := fun w hw => resolve_complete hwf (Occ.wire hx hw)
+  rw [getHWires_href]
+  unfold hwiresOfHRef
+  rw [resolve_complete hwf hx]
+  cases sel with
+  | all => exact absurd rfl hsel
+  | inside =>
+    simp only [mem_dedup, List.mem_map]
+    constructor
+    · rintro ⟨w, hwm, rfl⟩
+      exact ⟨w, hwm, by rw [getHWires_href]; unfold hwiresOfHRef; rw [hw w hwm]; simp [dedup]⟩
+    · rintro ⟨w, hwm, h⟩
+      rw [getHWires_href] at h
+      unfold hwiresOfHRef at h
+      rw [hw w hwm] at h
+      simp [dedup] at h
+      exact ⟨w, hwm, h.symm⟩
+  | outside =>
+    simp only [mem_dedup, List.mem_flatMap, List.mem_map]
+    constructor
+    · rintro ⟨n, ⟨w, hwm, rfl⟩, h⟩
+      exact ⟨w, hwm, by rw [getHWires_href]; unfold hwiresOfHRef; rw [hw w hwm]; simpa [mem_dedup] using h⟩
+    · rintro ⟨w, hwm, h⟩
+      rw [getHWires_href] at h
+      unfold hwiresOfHRef at h
+      rw [hw w hwm] at h
+      exact ⟨w.id :: x, ⟨w, hwm, rfl⟩, by simpa [mem_dedup] using h⟩
+  | both =>
+    simp only [mem_dedup, List.mem_flatMap, List.mem_map]
+    constructor
+    · rintro ⟨n, ⟨w, hwm, rfl⟩, h⟩
+      exact ⟨w, hwm, by rw [getHWires_href]; unfold hwiresOfHRef; rw [hw w hwm]; simpa [mem_dedup] using h⟩
+    · rintro ⟨w, hwm, h⟩
+      rw [getHWires_href] at h
+      unfold hwiresOfHRef at h
+      rw [hw w hwm] at h
+      exact ⟨w.id :: x, ⟨w, hwm, rfl⟩, by simpa [mem_dedup] using h⟩
+
+
 /-! ### non-vacuity: the hypotheses hold on a concrete three-level design with a shared definition,
     and the statements have content there (the start wire touches only instance pins — the shape on
     which the pinned commit's `get_hwires(…, ALL)` stops early) -/
